@@ -216,7 +216,12 @@ impl GroupEncoding for K256 {
 
     fn from_bytes(bytes: &Self::Repr) -> CtOption<Self> {
         let compressed = k256::CompressedPoint::from(bytes.0);
-        <ProjectivePoint as K256GroupEncoding>::from_bytes(&compressed).map(Self)
+        // SEC1 parsing also accepts the compact tag 0x05: only the image of `to_bytes` is a
+        // valid encoding.
+        <ProjectivePoint as K256GroupEncoding>::from_bytes(&compressed).and_then(|point| {
+            let canonical = <ProjectivePoint as K256GroupEncoding>::to_bytes(&point) == compressed;
+            CtOption::new(Self(point), Choice::from(canonical as u8))
+        })
     }
 
     fn from_bytes_unchecked(bytes: &Self::Repr) -> CtOption<Self> {
@@ -234,7 +239,12 @@ impl GroupEncoding for K256Affine {
 
     fn from_bytes(bytes: &Self::Repr) -> CtOption<Self> {
         let compressed = k256::CompressedPoint::from(bytes.0);
-        <AffinePoint as K256GroupEncoding>::from_bytes(&compressed).map(Self)
+        // SEC1 parsing also accepts the compact tag 0x05: only the image of `to_bytes` is a
+        // valid encoding.
+        <AffinePoint as K256GroupEncoding>::from_bytes(&compressed).and_then(|point| {
+            let canonical = <AffinePoint as K256GroupEncoding>::to_bytes(&point) == compressed;
+            CtOption::new(Self(point), Choice::from(canonical as u8))
+        })
     }
 
     fn from_bytes_unchecked(bytes: &Self::Repr) -> CtOption<Self> {
